@@ -23,6 +23,11 @@
 // After the sequential cases the thread-safe flavour gets a concurrent smoke part (stress rounds and forced
 // two-writer schedules behind a parked reader) with its own oracle: no panic, no deadlock, and at quiescence a
 // well-formed ring whose length is Len and whose elements are exactly inserted minus removed.
+//
+// conc.go: recorded concurrent histories of the thread-safe flavour (forced schedules for every mutating method queued
+// behind a parked reader, stress rounds), each judged for linearizability against container/list here and by the Lean
+// driver (`lin` lines); whole-list pushes of long sources under polling observers; two thread-safe lists (a source
+// that is modified during the push, lists pushing each other).
 package main
 
 import (
